@@ -188,12 +188,13 @@ def stage_oracles(ctx, tr, stage):
     if "C17" in act:
         from .oracles.dot import check_render
 
-        st["C17"] = run_oracle(ctx, "C17.render", check_render, scfg, None)
+        st["C17"] = run_oracle(ctx, "C17.render", check_render, scfg, ctx.data.get("flow"))
     for extra in EXTRA_STAGE_ORACLES:
         extra(ctx, tr, stage)
 
 
 EXTRA_STAGE_ORACLES = []
+PRE_STAGE = {"C16", "C17", "C15"}
 
 _STAGE_CODE = {
     "join_returns": "J",
@@ -209,7 +210,18 @@ def _wrap_stage(name, fn):
     def wrapper(self, *a, **k):
         ctx = core.CTX
         ctx.hit("M-stage." + name)
+        fresh = id(self) not in tracks(ctx)
         tr = track_of(self)
+        if fresh and PRE_STAGE & ACTIVE:
+            # quiescent point before the first stage: the input graph itself
+            ctx.stage = "0"
+            saved = set(ACTIVE)
+            ACTIVE.intersection_update(PRE_STAGE)
+            try:
+                stage_oracles(ctx, tr, "0")
+            finally:
+                ACTIVE.clear()
+                ACTIVE.update(saved)
         prev_stage = ctx.stage
         ctx.stage = "".join(tr.stages) + ">" + code
         depth = ctx.data.get("stage_depth", 0)
